@@ -832,8 +832,9 @@ func (w *srvWorld) peerSender() {
 		if w.closeAfter >= 0 && next >= w.closeAfter {
 			msg = nil
 		}
+		early := w.closeAfter >= 0 && next >= w.closeAfter
 		rt.Block("peer:next", func() bool {
-			return len(w.outbox) > 0 || (msg != nil && (!msg.Gate || msg.Open)) || w.closeGate
+			return len(w.outbox) > 0 || (msg != nil && (!msg.Gate || msg.Open)) || w.closeGate || early
 		})
 		if w.cfg.FoldReplies && len(w.outbox) > 0 && msg != nil && (!msg.Gate || msg.Open) && !msg.Garbage && !msg.Empty && len(msg.Members) > 0 && w.r.Sch.Chance("foldreply", 0.5) {
 			// a client is free to put its answer to a callback and its next
@@ -871,7 +872,10 @@ func (w *srvWorld) peerSender() {
 			if err := w.pEnd.Send([]byte(msg.Raw)); err != nil {
 				w.r.Ev("peer.send.err", "", 0, 0, err.Error())
 			}
-		default: // close gate
+		default: // close gate, or the peer hangs up early (with whatever is in flight)
+			if early && !w.closeGate {
+				w.r.Probe("peer-closed-early")
+			}
 			if w.stopSeq < 0 {
 				w.stopSeq = w.seq()
 			}
@@ -1042,7 +1046,7 @@ func (w *srvWorld) doPushAct(base context.Context, a *action) {
 		if e, ok := err.(*jrpc2.Error); ok {
 			a.Result = "E:" + e.Message
 			a.ErrCode, a.ErrData = int(e.Code), string(e.Data)
-		} else if err != nil && a.Kind == aCallback && err != context.Canceled && err != context.DeadlineExceeded && !errors.Is(err, jrpc2.ErrConnClosed) && !errors.Is(err, jrpc2.ErrPushUnsupported) {
+		} else if err != nil && a.Kind == aCallback && !errors.Is(err, context.Canceled) && !errors.Is(err, context.DeadlineExceeded) && !errors.Is(err, jrpc2.ErrConnClosed) && !errors.Is(err, jrpc2.ErrPushUnsupported) {
 			a.Result = "X:" + err.Error()
 		}
 	}
@@ -1382,7 +1386,7 @@ func (w *srvWorld) progressOf(dispatchedOnly bool) string {
 	msgStarted := map[int]bool{}
 	for _, msg := range w.msgs {
 		for _, m := range msg.Members {
-			if m.Enter >= 0 || (m.Kind == mRPCInfo && w.replySeq(m.ID) >= 0) {
+			if m.Enter >= 0 || (m.Kind == mRPCInfo && w.repliedWithResult(m.ID)) {
 				lastStarted = msg.Idx
 				msgStarted[msg.Idx] = true
 			}
@@ -1501,9 +1505,8 @@ func (w *srvWorld) checkResp(m *member, o respObj) string {
 					return fmt.Sprintf("%s: error response carries data %q, the handler's error carried %q", m.Tag, o.Data, want)
 				}
 			}
-			if m.Script.Outcome == 7 && !strings.Contains(o.Message, m.Tag) && !strings.Contains(o.Data, m.Tag) {
-				return fmt.Sprintf("%s: error response %d %q does not carry the handler's error %q", m.Tag, o.Code, o.Message, m.HErr)
-			}
+			// (an error that is not an *Error: what of its text reaches the client is
+			// not settled by the property; an error object with the call's id is)
 			return ""
 		}
 		if !o.HasRes || compactJSON(o.Result) != m.Result {
